@@ -81,6 +81,10 @@ func classifyErr(err error) string {
 	case errors.Is(err, fox.ErrRouteConflict):
 		var ce *fox.RouteConflictError
 		if errors.As(err, &ce) {
+			// (the message is rendered first, as a caller that logs the error before inspecting it does: rendering must
+			// not disturb the list of conflicting routes)
+			_ = err.Error()
+			_ = ce.Error()
 			hs := make([]string, len(ce.Matched))
 			for i, m := range ce.Matched {
 				hs[i] = hx(m)
@@ -507,6 +511,28 @@ func invalidWrites(f *fox.Router) string {
 	}
 	if after := fox.VerifDumpRouter(f); after != before {
 		bad = append(bad, "the registered routes changed: "+before+" -> "+after)
+	}
+	// a route built by ANOTHER router (looser limits) and accepted by HandleRoute of a router with tighter limits is a
+	// registered route like any other: every reader reports it
+	if loose, e1 := fox.New(); e1 == nil {
+		if tight, e2 := fox.New(fox.WithMaxRouteParamKeyBytes(3), fox.WithMaxRouteParams(1)); e2 == nil {
+			for _, fp := range []string{"/zzforeign/{longname}", "/zzf/{a}/{b}/{c}", "/zzplain"} {
+				rte, e3 := loose.NewRoute(fp, h)
+				if e3 != nil || tight.HandleRoute("GET", rte) != nil {
+					continue
+				}
+				n := 0
+				for range tight.Iter().Routes(slices.Values([]string{"GET"}), fp) {
+					n++
+				}
+				txn := tight.Txn(false)
+				if !tight.Has("GET", fp) || tight.Route("GET", fp) != rte || !txn.Has("GET", fp) || txn.Route("GET", fp) != rte || n != 1 {
+					bad = append(bad, fmt.Sprintf("a route %s built by another router and accepted by HandleRoute: Has=%v Route=%v Txn.Has=%v Txn.Route=%v Iter.Routes=%d",
+						fp, tight.Has("GET", fp), tight.Route("GET", fp) == rte, txn.Has("GET", fp), txn.Route("GET", fp) == rte, n))
+				}
+				txn.Abort()
+			}
+		}
 	}
 	if len(bad) > 0 {
 		return "invalid writes: " + strings.Join(bad, "; ")
@@ -1149,6 +1175,52 @@ func genOps(r *Rng, tier string, n int, emit func(string)) {
 			for _, v := range []string{strings.ToLower(m), strings.ToUpper(m), strings.ToUpper(m[:1]) + strings.ToLower(m[1:]), m, "get", "Get"} {
 				famProbes = append(famProbes, "L,"+v+",_,"+hx("/items/42"), "L,"+v+",_,"+hx("/items/"), "R,"+v+","+hx("/items/{id}"),
 					"R,"+v+","+hx("/"), "P,"+v+","+hx("/it"), "P,"+v+"+"+m+","+hx(""))
+			}
+		case 7:
+			// custom methods whose names are pieces of the standard verbs: they are methods of their own (their root
+			// goes away with their last route, Truncate handles them like any other custom method)
+			ops, pats, famProbes, hid = nil, nil, nil, 0
+			ms := []string{Pick(cr, []string{"DEL", "LET", "POS", "E", "PU", "ET"}), Pick(cr, []string{"GE", "OST", "T", "DELETES"}), "GET"}
+			methods = ms
+			for _, m := range ms {
+				addH(m, "/m/{id}")
+				addH(m, "/m")
+			}
+			for _, m := range ms[:2] {
+				ops = append(ops, "D,"+m+","+hx("/m"), "M", "D,"+m+","+hx("/m/{id}"), "M", "N")
+				addH(m, "/again")
+				ops = append(ops, "T,"+m, "M", "N", "R,"+m+","+hx("/again"))
+				addH(m, "/m/{id}")
+				famProbes = append(famProbes, "L,"+m+",_,"+hx("/m/7"), "P,"+m+"+GET,"+hx("/m"))
+			}
+			ops = append(ops, "T,"+ms[0]+"+GET+"+ms[1], "M", "N")
+			addH("GET", "/m")
+		case 9:
+			// a very wide node: 130-240 children whose first bytes range over the whole byte alphabet (everything but
+			// '/', '*' and '{'): the bisection of getEdge / updateEdge works on index sums well above 128
+			ops, pats, famProbes, hid = nil, nil, nil, 0
+			m := methods[0]
+			var alpha []byte
+			for b := 1; b < 256; b++ {
+				if b != '/' && b != '*' && b != '{' && b != '}' {
+					alpha = append(alpha, byte(b))
+				}
+			}
+			base := Pick(cr, []string{"/", "/w/", "/{x}/"})
+			nk := 130 + cr.Intn(len(alpha)-130)
+			perm := cr.Perm(len(alpha))[:nk]
+			for _, i := range perm {
+				addH(m, base+string(alpha[i:i+1])+Pick(cr, []string{"", "a", "/y"}))
+			}
+			ib := strings.ReplaceAll(base, "{x}", "v")
+			for j := 0; j < 24; j++ {
+				i := perm[cr.Intn(len(perm))]
+				famProbes = append(famProbes, "L,"+m+",_,"+hx(ib+string(alpha[i:i+1])+Pick(cr, []string{"", "a", "/y", "b"})), "R,"+m+","+hx(base+string(alpha[i:i+1])))
+			}
+			for j := 0; j < 12; j++ {
+				ops = append(ops, "D,"+m+","+hx(Pick(cr, pats)))
+				hid++
+				ops = append(ops, fmt.Sprintf("U,%s,%s,0,%d", m, hx(Pick(cr, pats)), hid))
 			}
 		case 13:
 			// keys with a period: a probe that ends inside an edge whose key repeats the probe's tail is not registered
